@@ -273,7 +273,7 @@ theorem fillMnly_spec (r : Rule) (p : Inst) (n : Nat) (hr : WfRule r) (hp : WfIn
         | false => exact hnil
         | true =>
           simp only []
-          have hS := makeEnum_S r p hr hp
+          have hS := subEnum_S r p hr hp
           have hts : (mkSubCtx r p k).e.S.zipIdx.Pairwise (fun a b => a.1 < b.1) ∧
               ∀ t ∈ (mkSubCtx r p k).e.S.zipIdx, t.1 < 60 :=
             ⟨zipIdx_asc _ hS.1, fun t ht => hS.2 t.1 (List.fst_mem_of_mem_zipIdx ht)⟩
